@@ -9,6 +9,7 @@
 package mcp
 
 import (
+	"runtime"
 	"bufio"
 	"bytes"
 	"context"
@@ -145,6 +146,18 @@ type ttObs struct {
 type ttCtl struct {
 	cur *ttCallSpec
 	obs *ttObs
+	mu  sync.Mutex
+	// armed: the next handler that runs is held back at its entry — it holds its typed input, has not looked
+	// at it yet — until released (overlapping calls held inside the handler: hold=h)
+	hpark *ttPark
+}
+
+func (c *ttCtl) takePark() *ttPark {
+	c.mu.Lock()
+	defer c.mu.Unlock()
+	p := c.hpark
+	c.hpark = nil
+	return p
 }
 
 type ttReg struct {
@@ -157,6 +170,11 @@ func ttHandle[In, Out any](ctl *ttCtl, name string, in In) (res *CallToolResult,
 	o, c := ctl.obs, ctl.cur
 	o.inv++
 	o.who = name
+	if p := ctl.takePark(); p != nil {
+		close(p.parked)
+		<-p.release
+	}
+	// what the handler sees when it looks at its input (after a hold: after the calls that overlapped it)
 	o.seen, _ = json.Marshal(in)
 	switch c.herr {
 	case 1:
@@ -1557,6 +1575,8 @@ type ttWorld struct {
 	ss  *ServerSession
 	tap *ttTap
 	ctl *ttCtl
+	mw  *ttMW
+	unanswered int // overlapping calls of this run that were never answered
 	ver string // the protocol version the current pair runs at ("" before the first server)
 	// per case
 	caches map[int]*SchemaCache
@@ -1566,7 +1586,51 @@ type ttWorld struct {
 }
 
 func ttNewWorld(t *testing.T) *ttWorld {
-	return &ttWorld{t: t, ctx: context.Background(), tap: &ttTap{}, ctl: &ttCtl{}}
+	return &ttWorld{t: t, ctx: context.Background(), tap: &ttTap{}, ctl: &ttCtl{}, mw: &ttMW{}}
+}
+
+// ttMW is the state of the receiving middleware every server of the harness carries (see middleware).
+type ttMW struct {
+	mu       sync.Mutex
+	park     *ttPark // armed: the next tools/call is held back after its handler chain has returned
+	panicked bool    // the handler chain of the last tools/call panicked
+}
+type ttPark struct{ parked, release chan struct{} }
+
+// middleware is a receiving middleware (Server.AddReceivingMiddleware, the SDK's public hook) that leaves
+// every request and result alone and does two things around tools/call: (1) it recovers a panic of the
+// handler chain — the request is answered by a JSON-RPC error and the harness observes res=panic instead
+// of losing the process —, so that every call op is exactly ONE invocation of the typed wrapper (no
+// separate crash probe: histories of calls on one tool are what the ops say); (2) when a park is armed it
+// holds the request back AFTER next has returned (the wrapper is done, the result not yet serialised)
+// until released: the way the harness overlaps calls (callGroup) — what an auditing / logging middleware
+// that looks at results does for as long as it takes.
+func (w *ttWorld) middleware() Middleware {
+	return func(next MethodHandler) MethodHandler {
+		return func(ctx context.Context, method string, req Request) (res Result, err error) {
+			if method != methodCallTool {
+				return next(ctx, method, req)
+			}
+			defer func() {
+				if r := recover(); r != nil {
+					w.mw.mu.Lock()
+					w.mw.panicked = true
+					w.mw.mu.Unlock()
+					res, err = nil, &jsonrpc.Error{Code: -32098, Message: "tt: the handler chain panicked"}
+				}
+			}()
+			res, err = next(ctx, method, req)
+			w.mw.mu.Lock()
+			p := w.mw.park
+			w.mw.park = nil
+			w.mw.mu.Unlock()
+			if p != nil {
+				close(p.parked)
+				<-p.release
+			}
+			return res, err
+		}
+	}
 }
 
 // reset starts a case: no caches, no schema pointers, no server (one without a cache is made on demand).
@@ -1677,6 +1741,13 @@ func (p *ttRawPeer) meta() string {
 // rpc sends one request whose params are the given members (the text between the braces) and waits for
 // its response. A modern peer adds its _meta to every request.
 func (p *ttRawPeer) rpc(method, members string) (ttRawReply, error) {
+	return p.rpcCancel(method, members, nil)
+}
+
+var errTTAbandoned = errors.New("abandoned by the harness")
+
+// rpcCancel: rpc that gives up (errTTAbandoned) when cancel is closed.
+func (p *ttRawPeer) rpcCancel(method, members string, cancel <-chan struct{}) (ttRawReply, error) {
 	if p.modern {
 		if members != "" {
 			members += ","
@@ -1703,6 +1774,8 @@ func (p *ttRawPeer) rpc(method, members string) (ttRawReply, error) {
 			return ttRawReply{}, errors.New("peer connection closed")
 		}
 		return rep, nil
+	case <-cancel:
+		return ttRawReply{}, errTTAbandoned
 	case <-time.After(60 * time.Second):
 		return ttRawReply{}, errors.New("no response within 60 s")
 	}
@@ -1752,6 +1825,7 @@ func (w *ttWorld) server(k int, ver, peer string) (string, error) {
 		opts = &ServerOptions{SchemaCache: w.caches[k]}
 	}
 	w.srv = NewServer(&Implementation{Name: "tt-server", Version: "1"}, opts)
+	w.srv.AddReceivingMiddleware(w.middleware())
 	if peer == "raw" {
 		if ver == "default" {
 			ver = latestProtocolVersion
@@ -2045,6 +2119,141 @@ func ttHasU64(v any) bool {
 // the JSON of the value the handler is going to return (encoding/json's rendering of the Out value the
 // harness builds from out= and anyx=), computed here, outside the SDK.
 func (w *ttWorld) call(toks []string) (op string, obs string, tags []string) {
+	r := w.callGroup([][]string{toks})[0]
+	return r.op, r.obs, r.tags
+}
+
+// ttCallRun is one tools/call of a group of overlapping calls, from its preparation to its observation.
+type ttCallRun struct {
+	op, obs string
+	tags    []string
+	early   bool // obs was decided before anything ran (bad op, unknown tool ...)
+	name    string
+	ti      *ttToolInfo
+	spec    *ttCallSpec
+	a       string // the args= token
+	lib     string
+	ob      *ttObs
+	// the round trip
+	raw             json.RawMessage
+	rpcErr, nilRes  bool
+	peerErr         error
+	panicked        bool
+	park            *ttPark
+	done            chan struct{}
+	ctx             context.Context
+	cancel          context.CancelFunc
+	hold            string // a: held after the handler chain has returned; h: held inside the handler
+	unanswered      bool // no response arrived within the harness's patience (the call was then abandoned)
+}
+
+// callGroup performs the tools/call requests described by the ops. One op: an ordinary call. Several
+// (ovl=1, ovl=2, ...): OVERLAPPING calls on the current session — call i (i < n) is held back by the server's
+// receiving middleware after its handler chain has returned (the typed wrapper is done, the result has not
+// been serialised yet), then call i+1 is started; the last call runs to completion, then the held calls
+// are let go in reverse order, each response awaited before the next release. Every handler still runs
+// alone (call i+1 is sent only when call i is parked), so what each handler was told to return and what it
+// saw is unambiguous; every call of the group is judged like any other call: by C16, on its own
+// arguments, its own handler output and the result that arrived for it.
+func (w *ttWorld) callGroup(group [][]string) []*ttCallRun {
+	runs := make([]*ttCallRun, len(group))
+	for i, toks := range group {
+		runs[i] = w.callPrep(toks)
+	}
+	var live []*ttCallRun
+	for _, r := range runs {
+		if !r.early {
+			live = append(live, r)
+		}
+	}
+	if len(live) > 1 {
+		// one P: the goroutines of the overlapping requests take turns on it (per-P caches such as
+		// sync.Pool's are shared by them, as they are whenever two requests happen to run on the same P)
+		defer runtime.GOMAXPROCS(runtime.GOMAXPROCS(1))
+	}
+	for i, r := range live {
+		r.ob = &ttObs{}
+		r.done = make(chan struct{})
+		r.ctx, r.cancel = context.WithCancel(w.ctx)
+		defer r.cancel()
+		w.ctl.cur, w.ctl.obs = r.spec, r.ob
+		w.mw.mu.Lock()
+		w.mw.panicked = false
+		w.mw.park = nil
+		w.ctl.mu.Lock()
+		w.ctl.hpark = nil
+		if i < len(live)-1 {
+			r.park = &ttPark{parked: make(chan struct{}), release: make(chan struct{})}
+			if r.hold == "h" {
+				w.ctl.hpark = r.park
+			} else {
+				w.mw.park = r.park
+			}
+		}
+		w.ctl.mu.Unlock()
+		w.mw.mu.Unlock()
+		if r.park == nil {
+			w.callDo(r)
+			close(r.done)
+		} else {
+			go func() {
+				defer close(r.done)
+				w.callDo(r)
+			}()
+			select {
+			case <-r.park.parked:
+			case <-r.done: // answered without reaching the parking place (a panic under the middleware)
+			case <-time.After(30 * time.Second):
+				r.unanswered = true
+			}
+		}
+		w.mw.mu.Lock()
+		r.panicked, w.mw.panicked = w.mw.panicked, false
+		w.mw.park = nil
+		w.mw.mu.Unlock()
+		w.ctl.takePark() // a call that never reached its parking place leaves nothing armed
+	}
+	for i := len(live) - 2; i >= 0; i-- {
+		r := live[i]
+		// how long a released call may take to be answered: 10 s — and 100 ms once three calls of this run
+		// were never answered (each of them is a failing input already; the run goes on exploring)
+		patience := 10 * time.Second
+		if w.unanswered >= 3 {
+			patience = 100 * time.Millisecond
+		}
+		close(r.park.release)
+		select {
+		case <-r.done:
+		case <-time.After(patience):
+			// released, and no response: the observation of this call (res=unanswered)
+			r.unanswered = true
+		}
+		if r.unanswered {
+			w.unanswered++
+			r.cancel()
+			<-r.done
+		}
+		// a call held inside its handler runs the rest of the wrapper only now
+		w.mw.mu.Lock()
+		if w.mw.panicked {
+			r.panicked, w.mw.panicked = true, false
+		}
+		w.mw.mu.Unlock()
+	}
+	for _, r := range live {
+		w.callFinish(r)
+	}
+	return runs
+}
+
+// callPrep reads one call op. The op is recorded with the token hout= filled in.
+func (w *ttWorld) callPrep(toks []string) (run *ttCallRun) {
+	run = &ttCallRun{early: true}
+	run.op, run.obs, run.tags = w.callPrep1(toks, run)
+	return run
+}
+
+func (w *ttWorld) callPrep1(toks []string, run *ttCallRun) (op string, obs string, tags []string) {
 	var keep []string
 	for _, t := range toks {
 		if !strings.HasPrefix(t, "hout=") {
@@ -2092,16 +2301,12 @@ func (w *ttWorld) call(toks []string) (op string, obs string, tags []string) {
 		return op, "bad-out-token", nil
 	}
 	a := ttKV(toks, "args")
-	var params json.RawMessage
 	var argsVal any
 	argShape := "obj"
-	nameJSON, _ := json.Marshal(name)
 	if a == "absent" {
-		params = json.RawMessage(fmt.Sprintf(`{"name":%s}`, nameJSON))
 		argShape = "absent"
 		argsVal = map[string]any{}
 	} else if b, ok := ttUnhex(a); ok {
-		params = json.RawMessage(fmt.Sprintf(`{"name":%s,"arguments":%s}`, nameJSON, b))
 		v, err := ttParse(b)
 		if err != nil {
 			return op, "bad-args-json", nil
@@ -2154,66 +2359,85 @@ func (w *ttWorld) call(toks []string) (op string, obs string, tags []string) {
 	}
 	tags = append(tags, "lib:"+lib)
 
-	// 1. crash probe: the wrapper called directly, under recover (a panic in the server's handler
-	// goroutine would take the whole process down)
-	w.ctl.cur, w.ctl.obs = spec, &ttObs{}
-	panicked := func() (p bool) {
-		defer func() {
-			if r := recover(); r != nil {
-				p = true
-			}
-		}()
-		var rawArgs json.RawMessage
-		if a != "absent" {
-			rawArgs, _ = ttUnhex(a)
+	if k := ttKV(toks, "ovl"); k != "" {
+		run.hold = ttKV(toks, "hold")
+		if run.hold != "h" {
+			run.hold = "a"
 		}
-		ti.probe(w.ctx, &CallToolRequest{Session: w.ss, Params: &CallToolParamsRaw{Name: name, Arguments: rawArgs}})
-		return false
-	}()
-	if panicked {
-		return op, fmt.Sprintf("inv=%d seen=- res=panic sc=- content=- lib=%s olib=- rt=-", w.ctl.obs.inv, lib), append(tags, "res:panic")
+		tags = append(tags, "overlap", "ovl:"+k, "hold:"+run.hold)
 	}
+	run.early, run.name, run.ti, run.spec, run.a, run.lib = false, name, ti, spec, a, lib
+	return op, "", tags
+}
 
-	// 2. the real round trip
-	ob := &ttObs{}
-	w.ctl.obs = ob
+// callDo is the round trip of one call: through the SDK client or the raw peer of the current session.
+// A panic of the wrapper is caught by the server's receiving middleware (ttWorld.middleware): the request
+// is then answered by a JSON-RPC error and the call is observed as res=panic.
+func (w *ttWorld) callDo(r *ttCallRun) {
+	a, name := r.a, r.name
+	nameJSON, _ := json.Marshal(name)
 	w.tap.mu.Lock()
 	w.tap.last, w.tap.err = nil, nil
 	w.tap.mu.Unlock()
 	// raw: the result member of the response as it arrived at the peer; rpcErr: a JSON-RPC error arrived
-	var raw json.RawMessage
-	var rpcErr, nilRes bool
 	if w.raw != nil {
 		members := fmt.Sprintf(`"name":%s`, nameJSON)
 		if a != "absent" {
 			rawArgs, _ := ttUnhex(a)
 			members += `,"arguments":` + string(rawArgs)
 		}
-		rep, err := w.raw.rpc(methodCallTool, members)
+		rep, err := w.raw.rpcCancel(methodCallTool, members, r.ctx.Done())
 		if err != nil {
-			return op, "peer-error " + hxs(err.Error()), tags
+			r.peerErr = err
+			return
 		}
-		raw, rpcErr = rep.result, rep.rpcErr != nil
-		nilRes = !rpcErr && (len(raw) == 0 || string(raw) == "null")
+		r.raw, r.rpcErr = rep.result, rep.rpcErr != nil
+		r.nilRes = !r.rpcErr && (len(r.raw) == 0 || string(r.raw) == "null")
 	} else {
 		var res *CallToolResult
 		var err error
 		if a == "absent" {
-			res, err = handleSend[*CallToolResult](w.ctx, methodCallTool, newClientRequest(w.cs, Params(&ttRawParams{params})))
+			params := json.RawMessage(fmt.Sprintf(`{"name":%s}`, nameJSON))
+			res, err = handleSend[*CallToolResult](r.ctx, methodCallTool, newClientRequest(w.cs, Params(&ttRawParams{params})))
 		} else {
 			rawArgs, _ := ttUnhex(a)
-			res, err = w.cs.CallTool(w.ctx, &CallToolParams{Name: name, Arguments: json.RawMessage(rawArgs)})
+			res, err = w.cs.CallTool(r.ctx, &CallToolParams{Name: name, Arguments: json.RawMessage(rawArgs)})
 		}
-		rpcErr, nilRes = err != nil, err == nil && res == nil
+		r.rpcErr, r.nilRes = err != nil, err == nil && res == nil
 		w.tap.mu.Lock()
-		raw = w.tap.last
+		r.raw = w.tap.last
 		w.tap.mu.Unlock()
 	}
+}
+
+// callFinish turns what arrived for the call into its observation.
+func (w *ttWorld) callFinish(r *ttCallRun) {
+	r.obs, r.tags = w.callFinish1(r)
+}
+
+func (w *ttWorld) callFinish1(r *ttCallRun) (obs string, tags []string) {
+	op, tags := r.op, r.tags
+	ob, name, ti, spec, lib := r.ob, r.name, r.ti, r.spec, r.lib
+	raw, rpcErr, nilRes := r.raw, r.rpcErr, r.nilRes
+	if r.peerErr != nil && !r.unanswered {
+		return "peer-error " + hxs(r.peerErr.Error()), tags
+	}
+	if r.panicked {
+		return fmt.Sprintf("inv=%d seen=- res=panic sc=- content=- lib=%s olib=- rt=-", ob.inv, lib), append(tags, "res:panic")
+	}
+	peerKind, era := "sdk", "modern"
+	if w.raw != nil {
+		peerKind = "raw"
+	}
+	if w.ver < protocolVersion20260728 {
+		era = "legacy"
+	}
+	_ = op
 	if ob.bad != "" {
-		return op, "harness-error " + hxs(ob.bad), tags
+		return "harness-error " + hxs(ob.bad), tags
 	}
 	if ob.inv > 0 && ob.who != name {
-		return op, "wrong-handler " + hxs(ob.who), tags
+		return "wrong-handler " + hxs(ob.who), tags
 	}
 	seen := "-"
 	if ob.inv > 0 {
@@ -2235,6 +2459,9 @@ func (w *ttWorld) call(toks []string) (op string, obs string, tags []string) {
 	tags = append(tags, "olib:"+olib)
 	kind, sc, content, rt := "", "-", "-", "-"
 	switch {
+	case r.unanswered:
+		kind = "unanswered"
+		tags = append(tags, "res:unanswered")
 	case rpcErr:
 		kind = "rpcerr"
 		tags = append(tags, "res:rpcerr")
@@ -2250,10 +2477,10 @@ func (w *ttWorld) call(toks []string) (op string, obs string, tags []string) {
 		}
 		var members map[string]json.RawMessage
 		if e := json.Unmarshal(raw, &wire); e != nil {
-			return op, "bad-wire-result", tags
+			return "bad-wire-result", tags
 		}
 		if e := json.Unmarshal(raw, &members); e != nil {
-			return op, "bad-wire-result", tags
+			return "bad-wire-result", tags
 		}
 		if rtRaw, has := members["resultType"]; has {
 			var rs string
@@ -2316,7 +2543,7 @@ func (w *ttWorld) call(toks []string) (op string, obs string, tags []string) {
 			}
 		}
 	}
-	return op, fmt.Sprintf("inv=%d seen=%s res=%s sc=%s content=%s lib=%s olib=%s rt=%s", ob.inv, seen, kind, sc, content, lib, olib, rt), tags
+	return fmt.Sprintf("inv=%d seen=%s res=%s sc=%s content=%s lib=%s olib=%s rt=%s", ob.inv, seen, kind, sc, content, lib, olib, rt), tags
 }
 
 // ttJSONKind names the JSON kind of an args=/out= token: absent, null, object, array, string, number, boolean.
@@ -2345,6 +2572,20 @@ func ttJSONKind(tok string) string {
 		return "null"
 	}
 	return "number"
+}
+
+// ttOvlGroup: the number of leading lines that form a group of overlapping calls (`call` ops carrying
+// ovl=1, ovl=2, ... in this order); 0 or 1: no group (a lone ovl=1 is an ordinary call).
+func ttOvlGroup(ops []string) int {
+	n := 0
+	for _, l := range ops {
+		toks := strings.Fields(l)
+		if len(toks) == 0 || toks[0] != "call" || ttKV(toks, "ovl") != strconv.Itoa(n+1) {
+			break
+		}
+		n++
+	}
+	return n
 }
 
 // ttRun interprets one op line.
@@ -2601,6 +2842,17 @@ func (c *ttCaseGen) addCallWith(t *ttGenTool, args, atag, out string) {
 	c.lines = append(c.lines, fmt.Sprintf("call tool=%s args=%s out=%s anyx=%d content=%s herr=%d gen=%s", t.name, args, out, anyx, content, herr, strings.TrimPrefix(atag, "gen:")))
 }
 
+// addOverlap emits a group of overlapping calls (ovl=1..n), one per given tool: generated like any other
+// call; the harness holds each but the last one back after its handler chain has returned (callGroup).
+func (c *ttCaseGen) addOverlap(ts ...*ttGenTool) {
+	for i, t := range ts {
+		c.addCall(t)
+		// where the call is held while the next one runs: after its handler chain has returned (a), or inside
+		// its handler, before the handler looks at its input (h)
+		c.lines[len(c.lines)-1] += fmt.Sprintf(" ovl=%d hold=%s", i+1, c.g.pick("a", "a", "h"))
+	}
+}
+
 // session draws the protocol version and the kind of peer of a server of the case: the SDK client left
 // alone (its default version) or told to run at one of the SDK's supported versions, or a foreign peer
 // speaking raw JSON-RPC at one of them.
@@ -2651,6 +2903,7 @@ func ttMatrixCase(r *rand.Rand, ver, peer string) []string {
 		}
 		c.addCallWith(t, kinds[k%len(kinds)], "gen:"+tag, "")
 		k++
+		c.addOverlap(t, t) // two overlapping calls: every kind of output, at every version, with either peer
 		switch t.outTy.K {
 		case "ptr":
 			c.addCallWith(t, "", "", "nilptr")
@@ -2712,6 +2965,16 @@ func ttGenCase(r *rand.Rand, nCalls int) []string {
 		c.lines = append(c.lines, fmt.Sprintf("server cache=%d %s", g.r.Intn(2), g.session()))
 		t := c.addTool("t1", pivot, 0.7, 0.65)
 		for i := 0; i < nCalls; i++ {
+			if g.coin(0.12) { // overlapping calls on the one tool
+				if g.coin(0.3) {
+					c.addOverlap(t, t, t)
+					i++
+				} else {
+					c.addOverlap(t, t)
+				}
+				i++
+				continue
+			}
 			c.addCall(t)
 		}
 		return c.lines
@@ -2766,6 +3029,16 @@ func ttGenCase(r *rand.Rand, nCalls int) []string {
 				if g.coin(0.3) {
 					tgt = cur[g.r.Intn(len(cur))]
 				}
+				if g.coin(0.12) { // overlapping calls: on one tool, or on two tools of the server
+					left--
+					q--
+					other := tgt
+					if g.coin(0.4) {
+						other = cur[g.r.Intn(len(cur))]
+					}
+					c.addOverlap(tgt, other)
+					continue
+				}
 				c.addCall(tgt)
 			}
 		}
@@ -2781,11 +3054,27 @@ func TestVerifTypedTool(t *testing.T) {
 	runCase := func(lines []string, extra ...string) {
 		caseNo++
 		cs := fmt.Sprintf("c%d", caseNo)
+		var ops []string
 		for _, l := range lines {
 			if strings.HasPrefix(l, "#") || strings.TrimSpace(l) == "" {
 				continue
 			}
-			op, obs, tags := w.run(l)
+			ops = append(ops, l)
+		}
+		for i := 0; i < len(ops); i++ {
+			// a group of overlapping calls: `call ... ovl=1`, `call ... ovl=2`, ... on consecutive lines
+			if n := ttOvlGroup(ops[i:]); n > 1 {
+				var group [][]string
+				for _, l := range ops[i : i+n] {
+					group = append(group, strings.Fields(l))
+				}
+				for _, r := range w.callGroup(group) {
+					out.line(cs, r.op, r.obs, append(r.tags, extra...)...)
+				}
+				i += n - 1
+				continue
+			}
+			op, obs, tags := w.run(ops[i])
 			out.line(cs, op, obs, append(tags, extra...)...)
 		}
 	}
